@@ -307,6 +307,10 @@ def check_C03(chk):
                                   % (c0["k"], c0["npk"], "another sender handle survives" if c0["survivor"] else "no other sender", why),
                                   {"input": c0, "child_progress": it["child"], "observed": it["rec"]}, key="c03crash:npk=%d k=%d s=%d" % (c0["npk"], c0["k"], c0["survivor"]))
         chk.coverage["crashed_sender_scenarios"] = len(ccases)
+        # what the three receive variants REPORT, sequences with undecodable (too short) messages among them: 'disconnected' is said when
+        # no sender is left and the queue is drained - not for a message the receiver's type cannot decode
+        from . import props_set as PS0
+        PS0.timed_slice(chk, bins, ["default", "inprocess"], 16 if thorough else 6, 43, "receive variants with undecodable messages")
         # receivers watched through a receiver set: after a burst of messages (more than any per-event budget) the last sender goes; the
         # set must deliver all of them and then report the closure instead of waiting for ever
         from . import props_set as PS
